@@ -357,6 +357,7 @@ const C08_MAIN: &str = "import dep
 import dep.{type Ext, ext_fn, ExtCtor, ext_fn as ef}
 import other/mod as om
 import loc
+import loc.{loc_fn as lf, loc_const as lc, LocCtor as Lc, type LocTy as Lt, loc_two}
 
 pub type Ty {
   Ctor(field: Int, second: String)
@@ -380,6 +381,11 @@ pub fn func(param: Int, label inner: Int) {
   let m = om.mod_fn(1)
   let g = ef(3)
   let w = dep.ExtCtor
+  let u1 = lf(1)
+  let u2 = lc
+  let u3 = Lc
+  let u4: Lt = u3
+  let u5 = loc_two(1)
   func(local, label: t.field)
 }
 ";
@@ -440,6 +446,19 @@ fn probes() -> Vec<Probe> {
         p("extern-ctor-qualified-use", "dep.ExtCtor", 0, 4, Upper, true, false),
         p("extern-type-use", "x: Ext", 0, 3, Upper, true, false),
         p("other-local-package-fn-use", "loc.loc_fn", 0, 4, Lower, true, true),
+        // aliases of symbols of a LOCAL package: only the alias rule can refuse these
+        p("local-fn-alias-in-import", "as lf", 0, 3, Lower, false, true),
+        p("local-const-alias-in-import", "as lc", 0, 3, Lower, false, true),
+        p("local-ctor-alias-in-import", "as Lc", 0, 3, Upper, false, true),
+        p("local-type-alias-in-import", "as Lt", 0, 3, Upper, false, true),
+        p("local-fn-alias-use", "lf(1)", 0, 0, Lower, false, true),
+        p("local-const-alias-use", "= lc\n", 0, 2, Lower, false, true),
+        p("local-ctor-alias-use", "= Lc\n", 0, 2, Upper, false, true),
+        p("local-type-alias-use", "u4: Lt", 0, 4, Upper, false, true),
+        p("module-alias-in-import", "as om", 0, 3, Lower, false, true),
+        p("module-name-in-import", "import loc\n", 0, 7, Lower, false, true),
+        p("local-fn-import-item", "loc_two}", 0, 0, Lower, true, true),
+        p("local-fn-unqualified-use", "loc_two(1)", 0, 0, Lower, true, true),
     ]
 }
 
@@ -448,7 +467,7 @@ pub fn c08_workspace() -> (Workspace, usize) {
         packages: vec![
             WsPackage { name: "app".into(), files: vec![WsFile { rel: "src/main.gleam".into(), text: C08_MAIN.into() }, WsFile { rel: "src/other/mod.gleam".into(), text: "pub fn mod_fn(x) { x }\n".into() }], deps: vec![1, 2], is_local: true },
             WsPackage { name: "dep".into(), files: vec![WsFile { rel: "src/dep.gleam".into(), text: "pub type Ext {\n  ExtCtor\n}\n\npub fn ext_fn(x) {\n  x\n}\n\npub const ext_const = 1\n".into() }], deps: vec![], is_local: false },
-            WsPackage { name: "loc".into(), files: vec![WsFile { rel: "src/loc.gleam".into(), text: "pub fn loc_fn(x) {\n  x\n}\n".into() }], deps: vec![], is_local: true },
+            WsPackage { name: "loc".into(), files: vec![WsFile { rel: "src/loc.gleam".into(), text: "pub fn loc_fn(x) {\n  x\n}\n\npub fn loc_two(x) {\n  x\n}\n\npub const loc_const = 1\n\npub type LocTy {\n  LocCtor\n}\n".into() }], deps: vec![], is_local: true },
         ],
     };
     (ws, 0)
